@@ -438,7 +438,7 @@ def check(ctx, replay=None):
                 if f.endswith(".json"):
                     c = json.load(open(os.path.join(cdir, f)))
                     hists.append(dict(U=c["U"], ops=c["ops"], opts=c.get("opts") or BASE, stream="corpus", contig=False, zero=False))
-        nh = 700 if ctx.tier == "quick" else 6000
+        nh = 2000 if ctx.tier == "quick" else 20000
         hists += generate(ctx.rng, nh)
         compare(ctx, hists, res, drvs, orc)
     res.distinct = set((tuple(h["U"]), tuple(h["ops"])) for h in hists)
